@@ -66,13 +66,17 @@ def image_entry(variant, arch, n, version):
     return d
 
 
-def variant_layouts():
-    """Every arch layout of one variant: binary arches absent / present-empty / with one image, src absent / 1 / 2 images."""
+def variant_layouts(deep=False):
+    """Every arch layout of one variant: binary arches absent / present-empty / with one image, src absent / 1 / 2 images
+    (deep: a third binary arch, which sorts before 'src' and the others)."""
     out = []
-    for x, i, s in itertools.product((None, 0, 1), (None, 0, 1), (None, 1, 2)):
-        if x is None and i is None and s is None:
+    for x, i, s, a in itertools.product((None, 0, 1), (None, 0, 1), (None, 1, 2), (None, 0, 1) if deep else (None,)):
+        if x is None and i is None and s is None and a is None:
             continue
-        out.append({"x86_64": x, "i386": i, "src": s})
+        lay = {"x86_64": x, "i386": i, "src": s}
+        if deep:
+            lay["aarch64"] = a
+        out.append(lay)
     return out
 
 
@@ -238,11 +242,11 @@ def eval_rpms_doc(doc, mode="fresh"):
 
 def units(tier, seed):
     us = [("adds",)]
-    lays = variant_layouts()
+    lays = variant_layouts(tier == "thorough")
     for ver in ("1.0", "1.1", "1.2"):
-        us.append(("img1", ver))
+        us.append(("img1", ver, tier == "thorough"))
         for k in range(len(lays)):
-            us.append(("img2", ver, k))
+            us.append(("img2", ver, k, tier == "thorough"))
     rl = rpms_variant_layouts()
     us.append(("rpm1",))
     for k in range(len(rl)):
@@ -361,7 +365,7 @@ def run_unit(unit, acc):
                 _judge_add(o, arch, {"kind": "imgadd" if what == "Images.add" else "rpmadd", "pre": [], "arch": arch, "srpm": False}, acc, what)
         acc.sample({"add": ["Server", "nosrc", "<image>"], "expected": "ValueError, manifest unchanged"}, limit=1)
     elif k in ("img1", "img2"):
-        lays = variant_layouts()
+        lays = variant_layouts(unit[-1])
         ver = unit[1]
         if k == "img1":
             for lay in lays:
